@@ -53,6 +53,10 @@ func StartTLS(cfg *tls.Config) StreamFeature {
 			d := xml.NewTokenDecoder(r)
 
 			// If no TLSConfig was specified, use a default config.
+			// The default is built per negotiation: the feature value may be reused
+			// for sessions with other addresses, so it must not be stored in the
+			// variable captured by this closure.
+			cfg := cfg
 			if cfg == nil {
 				cfg = &tls.Config{
 					ServerName: session.LocalAddr().Domain().String(),
